@@ -143,6 +143,9 @@ structure BView where
   index : RowKey → Nat
   /-- class code of "instance of a user class defining none of the modelled dunders" -/
   user : Nat
+  /-- class code of "instance of a user class with `__getitem__`" (pytype's matcher accepts it where
+  a builtin signature asks for an `Iterable`: old-style iteration protocol) -/
+  userIter : Nat
 
 def BView.rows (T : BView) : List Row := T.chunks.flatten
 
@@ -191,26 +194,32 @@ inductive Stmt where
   | fcall (f : Nat) (x : Operand)
   deriving Repr, Inhabited
 
+/-- class code under which an instance of user class `c` is looked up in the builtin table: builtin
+signatures only distinguish user instances by the protocols they satisfy, and among the dunders of F14
+only `__getitem__` (Iterable) matters -/
+def userCode (T : BView) (H : Hier) (c : Nat) : Nat :=
+  if (lookupCls H c getitemName).isSome then T.userIter else T.user
+
 /-- class code under which an operand is looked up in the builtin table -/
-def Operand.code (T : BView) : Operand → Nat
+def Operand.code (T : BView) (H : Hier) : Operand → Nat
   | .b k => k
-  | .u _ => T.user
+  | .u c => userCode T H c
 
 /-- the table row a statement consults (none: decided by the user-class dispatch alone) -/
-def Stmt.row (T : BView) : Stmt → Option RowKey
+def Stmt.row (T : BView) (H : Hier) : Stmt → Option RowKey
   | .bin (.u _) _ (.u _) => none
-  | .bin x op y => some (op.kind, 0, x.code T, y.code T)
+  | .bin x op y => some (op.kind, 0, x.code T H, y.code T H)
   | .sub (.u _) _ => none
-  | .sub x y => some (kindSub, 0, x.code T, y.code T)
+  | .sub x y => some (kindSub, 0, x.code T H, y.code T H)
   | .neg (.u _) => none
-  | .neg x => some (kindNeg, 0, x.code T, 0)
+  | .neg x => some (kindNeg, 0, x.code T H, 0)
   | .call (.u _) => none
-  | .call x => some (kindCall, 0, x.code T, 0)
+  | .call x => some (kindCall, 0, x.code T H, 0)
   | .attrU _ _ => none
   | .mcallU _ _ => none
   | .attrB k a => some (kindAttr, a, k, 0)
   | .mcallB k a => some (kindMCall, a, k, 0)
-  | .fcall f x => some (kindFCall, f, x.code T, 0)
+  | .fcall f x => some (kindFCall, f, x.code T H, 0)
 
 /-! ## pytype's dispatch -/
 
@@ -260,7 +269,8 @@ def pyOption (T : BView) (H : Hier) (op : Op) (refl : Bool) (left right : Operan
     | some (_, .data _) => .fails
     | none => .missing
   | .b k =>
-    let key : RowKey := if refl then (op.kind, 0, T.user, k) else (op.kind, 0, k, right.code T)
+    let key : RowKey :=
+      if refl then (op.kind, 0, right.code T H, k) else (op.kind, 0, k, right.code T H)
     if T.py key then .fails else .returns none
 
 def pyTryOptions (T : BView) (H : Hier) (op : Op) : List (Operand × Operand × Bool) → PyRes
@@ -288,7 +298,7 @@ def modelSub (T : BView) (H : Hier) (x y : Operand) : PyRes :=
     | some (_, .method r) => .ok (some r)
     | some (_, .data _) => .err .notCallable
     | none => .err .unsupported
-  | .b k => if T.py (kindSub, 0, k, y.code T) then .err .reported else .ok none
+  | .b k => if T.py (kindSub, 0, k, y.code T H) then .err .reported else .ok none
 
 def modelNeg (T : BView) (H : Hier) (x : Operand) : PyRes :=
   match x with
@@ -334,7 +344,7 @@ def modelStmt (T : BView) (H : Hier) : Stmt → PyRes
   | .mcallU c n => modelMCall H c n
   | .attrB k a => if T.py (kindAttr, a, k, 0) then .err .reported else .ok none
   | .mcallB k a => if T.py (kindMCall, a, k, 0) then .err .reported else .ok none
-  | .fcall f x => if T.py (kindFCall, f, x.code T, 0) then .err .reported else .ok none
+  | .fcall f x => if T.py (kindFCall, f, x.code T H, 0) then .err .reported else .ok none
 
 /-! ## CPython's data model -/
 
@@ -411,7 +421,7 @@ def cpyBinop (T : BView) (H : Hier) (x : Operand) (op : Op) (y : Operand) : List
   | .b k, .b k' => T.cpy (op.kind, 0, k, k')
   | .u c, .u c' => [(binaryOp1UU H op c c').outcome]
   | .b k, .u c =>
-    let base := T.cpy (op.kind, 0, k, T.user)
+    let base := T.cpy (op.kind, 0, k, userCode T H c)
     if base.all Outcome.bad then
       match callMaybe H c op.rname with
       | .val _ => [.ok]
@@ -421,7 +431,7 @@ def cpyBinop (T : BView) (H : Hier) (x : Operand) (op : Op) (y : Operand) : List
     match callMaybe H c op.name with
     | .val _ => [.ok]
     | .typeError => [.typeError]
-    | .notImpl => T.cpy (op.kind, 0, T.user, k)
+    | .notImpl => T.cpy (op.kind, 0, userCode T H c, k)
 
 def cpySub (T : BView) (H : Hier) (x y : Operand) : List Outcome :=
   match x with
@@ -430,7 +440,7 @@ def cpySub (T : BView) (H : Hier) (x y : Operand) : List Outcome :=
     | some (_, .method _) => [.ok]      -- whatever it returns, also NotImplemented, is the value
     | some (_, .data _) => [.typeError]
     | none => [.typeError]              -- "object is not subscriptable"
-  | .b k => T.cpy (kindSub, 0, k, y.code T)
+  | .b k => T.cpy (kindSub, 0, k, y.code T H)
 
 def cpyNeg (T : BView) (H : Hier) (x : Operand) : List Outcome :=
   match x with
@@ -482,7 +492,7 @@ def cpyStmt (T : BView) (H : Hier) : Stmt → List Outcome
   | .mcallU c n => cpyMCall H c n
   | .attrB k a => T.cpy (kindAttr, a, k, 0)
   | .mcallB k a => T.cpy (kindMCall, a, k, 0)
-  | .fcall f x => T.cpy (kindFCall, f, x.code T, 0)
+  | .fcall f x => T.cpy (kindFCall, f, x.code T H, 0)
 
 /-! ## well-formedness of the fragment -/
 
